@@ -653,6 +653,9 @@ func (tr *Translator) call(c *ECall) tv {
 		return tv{App(SInt, utf8Fns(tr.f.enc)[0], arg(0).t), tyInt}
 	case "utf8byte":
 		return tv{App(SInt, utf8Fns(tr.f.enc)[1], arg(0).t, arg(1).t), tyInt}
+	case "samearray":
+		// two slice values share their backing array
+		return tv{Eq(SPtr(arg(0).t), SPtr(arg(1).t)), tyBool}
 	case "rtypeof":
 		fn := tr.f.enc.declFun("rtypeof", []Sort{SIface}, SIface)
 		return tv{App(SIface, fn, arg(0).t), tr.goType("reflect.Type")}
